@@ -112,7 +112,12 @@ def run(ctx):
             ts[c2] = ts[c1]; kinds[c2] = kinds[c1]
             if isinstance(alts, list) and ctx.rng.random() < 0.8:
                 two[c2] = not two[c1]; alts = ["two-sided" if t_ else "greater" for t_ in two]
-        e, tests, st = scripted_experiment(tv, ts, kinds)
+        sc = ctx.rng.choice([1, 1, 1, 1, 1e-200, 1e160, 2.0 ** -600, 2.0 ** 600, 1e-320])      # units in which squares / products leave the double range
+        if sc != 1:
+            kinds = [ctx.rng.choice(["np", "float"]) for _ in range(m)]; ctx.count("statistics-of-extreme-magnitude")
+            e, tests, st = scripted_experiment([[v * sc for v in r_] for r_ in tv], [v * sc for v in ts], kinds)
+        else:
+            e, tests, st = scripted_experiment(tv, ts, kinds)
         if dup:
             tests[dup[1]] = tests[dup[0]]
         tests_before = list(tests); alts_before = list(alts) if isinstance(alts, list) else alts
@@ -121,7 +126,7 @@ def run(ctx):
             ctx.violation("input-modified", {"call": "westfall_young", "method": method, "alternatives": alts_before,
                                              "issue": "the caller's list of test functions (or of alternatives) was modified by the call"}, site="westfall_young")
         det = {"call": "westfall_young", "method": method, "alternatives": alts, "reps": reps, "observed": ts, "table": tv,
-               "return_kinds": kinds, "in_place": ip}
+               "all_statistics_multiplied_by": sc, "return_kinds": kinds, "in_place": ip}
         tie = any(abs(r_[c]) == abs(ts[c]) or r_[c] == ts[c] for r_ in tv for c in range(m))
         ctx.case((tuple(map(tuple, tv)), tuple(ts), method, str(alts)), m > 1 or tie, det if m > 1 else None)
         ctx.count(method + "-" + ("mixed" if len(set(two)) > 1 else ("two-sided" if two[0] else "greater"))); ctx.count("obs-" + mode); ctx.count(f"m={m}")
@@ -218,6 +223,7 @@ def replay(rep):
     d = rep["first"]["detail"]; d = d.get("input", d)
     print("recorded:", rep["first"]["detail"])
     if "table" in d and "observed" in d:
-        e, tests, _ = scripted_experiment(d["table"], d["observed"], d.get("return_kinds"))
+        sc = d.get("all_statistics_multiplied_by", 1)
+        e, tests, _ = scripted_experiment([[v * sc for v in r_] for r_ in d["table"]] if sc != 1 else d["table"], [v * sc for v in d["observed"]] if sc != 1 else d["observed"], d.get("return_kinds"))
         print("now ->", npc.westfall_young(e, tests, method=d["method"], alternatives=d["alternatives"], reps=d["reps"]))
     return 0
